@@ -113,7 +113,15 @@ def outcome_of(engine, text, options=None):
         return out
     except Exception as e:      # any other exception class is compared too
         return ['error!', type(e).__name__, str(e)]
+    if _keep[0] is not None:
+        # the host keeps the statements it parsed (a rule table, a cache of
+        # prepared queries) while it goes on parsing other texts
+        _keep[0].append(st)
     return ['ok', ser.ser_expr(st)]
+
+
+_keep = [None]      # where outcome_of retains parsed statements, if anywhere
+_kept = []          # statements retained by earlier runs of this process
 
 
 def ref(config, text):
@@ -453,6 +461,9 @@ FOCUS_GROUPS = [
     ['1 = 2', '$a != $b', 'not $a = $b', '$x = 1 and $y != 2'],
     ['1 +', '(2', '[1,', 'f(', '$.a.'],
     ['true and false', 'null', '$a.b.c(d => 1)', '12.5 * 3'],
+    # literals that are equal as Python values and different as constants
+    ['$ * 2.0', '[10, 20, 30][2]', '2 + 2.0', '1.0', '1', '0.0 + 0', "'1' + 1",
+     '10 / 4', '10.0 / 4.0', 'str(2)', '[0, 0.0, -0.0]', '1 = 1.0'],
 ]
 
 
@@ -481,6 +492,7 @@ def gen_case(seeds, params, index):
                 'tasks': [[[w.choice(group), None]], [[w.choice(group), None]]],
                 'sweep': 12, 'sweep_seed': seeds.sub('sweep'),
                 'same_thread_names': w.random() < 0.3,
+                'keep': w.random() < 0.4,
                 'sched': {'policy': 'sequential'}}
     config = w.choice(CONFIGS)
     corpus = _corpus[config]
@@ -553,7 +565,8 @@ def gen_case(seeds, params, index):
                                    for _ in range(s.randrange(1, 5))]
     return {'config': config, 'flavour': flavour, 'preempt': preempt,
             'mode': 'sampled', 'tasks': tasks, 'sched': spec, 'cold': cold,
-            'same_thread_names': w.random() < 0.3}
+            'same_thread_names': w.random() < 0.3,
+            'keep': w.random() < 0.25}
 
 
 # ---------------------------------------------------------------------------
@@ -674,10 +687,15 @@ def _execute_once(case, stats):
 
     for tid, ops in enumerate(case['tasks']):
         baton.add(mk(tid, ops))
+    if case.get('keep'):
+        if len(_kept) > 96:
+            del _kept[:]
+        _keep[0] = _kept
     try:
         results = baton.run()
         cache_after = dict(yaql._cached_expressions) if flavour == 'eval' else {}
     finally:
+        _keep[0] = None
         if saved:
             (yaql._cached_engine, yaql._cached_expressions,
              yaql._default_context, X.Statement.evaluate) = saved
